@@ -37,7 +37,8 @@ static void build_requests(void) {
     REQ[NREQ++] = ev_reset(0, ST_M1);
 }
 /* scenario id: start*(NREQ+NREQ*NREQ) + (len1: r | len2: NREQ + r1*NREQ + r2); constructors: 2*(...) + c */
-static int nscen_req(void) { return 2 * (NREQ + NREQ * NREQ); }
+#define NSTART 3
+static int nscen_req(void) { return NSTART * (NREQ + NREQ * NREQ); }
 static int NSCEN;
 static void scen_decode(int s, int *start, int *r1, int *r2, int *ctor) {
     *ctor = -1; *r2 = -1;
@@ -50,7 +51,7 @@ static void scen_name(int s, char *b, size_t cap) {
     static const char *cn[] = {"init_automata_mapping", "init_automata_enumeration", "init_automata_session", "session_table_create"};
     if (ctor >= 0) { snprintf(b, cap, "constructor %s", cn[ctor]); return; }
     char n1[120], n2[120] = ""; pev_name(&REQ[r1], n1, sizeof n1); if (r2 >= 0) pev_name(&REQ[r2], n2, sizeof n2);
-    snprintf(b, cap, "from %s: %s%s%s", start ? "[mapper active, 2 observations, icon cached]" : "[fresh]", n1, r2 >= 0 ? " ; " : "", n2);
+    snprintf(b, cap, "from %s: %s%s%s", start == 2 ? "[mapper active, two observations more than one QueryResp carries]" : start ? "[mapper active, 2 observations, icon cached]" : "[fresh]", n1, r2 >= 0 ? " ; " : "", n2);
 }
 
 /* ------------------------------------------------------------ fault slots */
@@ -90,6 +91,16 @@ static uint32_t base_blocks; static uint64_t base_bytes;      /* per-interface r
 static void start_state(int start) {
     if (!start) return;
     pev e = ev_discover(0, ST_M1, ST_M1, 0x1234, 1); drv_linux(&e, 0);
+    if (start == 2) {      /* a see-list that needs two QueryResp frames: the first answer carries the 'more' flag */
+        int n = (int)((W.iface[0].mtu - 34) / 20) + 2;
+        for (int k = 0; k < n; k++) {
+            uint8_t f[64], src[6] = {0x00, 0x50, 0x56, 0x10, (uint8_t)(k >> 8), (uint8_t)k};
+            fb_base(f, W.iface[0].mac, src, 0, (k & 1) ? 0x04 : 0x03, W.iface[0].mac, src, 0);
+            vf_iface *fi = &W.iface[0]; memset(fi->recv, 0, fi->recv_prev_len);
+            drv_linux_deliver(0, f, 32);
+        }
+        return;
+    }
     e = ev_probe(0x04, 0, ST_S0, ST_S0, ST_OWN, ST_OWN); drv_linux(&e, 0);
     e = ev_probe(0x03, 0, ST_PEER, ST_BR, ST_OWN, ST_OWN); drv_linux(&e, 0);
     e = ev_qlt(0, ST_M1, ST_M1, 5, 0x0E, 0); drv_linux(&e, 0);
@@ -236,7 +247,7 @@ int main(int argc, char **argv) {
     uint64_t total = (uint64_t)NSCEN * (uint64_t)NSLOTS;
     fr_run(&fc, total * (uint64_t)A.part / (uint64_t)A.nparts, total * (uint64_t)(A.part + 1) / (uint64_t)A.nparts, &st);
     R.evaluations = st.executed; R.exhaustive = st.cap == NULL; R.cap_hit = st.cap;
-    vf_sample("%d scenarios (2 start states x histories of length <= 2 over %d requests, + 4 constructors) x %d fault plans (fault-free, sends refused, allocations fail from k on, %d getter subsets, %d single deviations%s)", NSCEN, NREQ, NSLOTS, NGETSUB, N_DEV, vf_thorough() ? " each extended by every later second deviation" : "");
+    vf_sample("%d scenarios (3 start states x histories of length <= 2 over %d requests, + 4 constructors) x %d fault plans (fault-free, sends refused, allocations fail from k on, %d getter subsets, %d single deviations%s)", NSCEN, NREQ, NSLOTS, NGETSUB, N_DEV, vf_thorough() ? " each extended by every later second deviation" : "");
 #else
     NCV = sigma_build(CV, 1024, vf_thorough() ? SIGMA_P : SIGMA_SMALL); c3.nev = NCV;
     c3.deadline_s = A.deadline;
